@@ -279,9 +279,11 @@ def scenarios(tier: str):
         if ev[0] not in ('add', 'create', 'delete'):
             continue      # a history that starts with an operation on nothing is equivalent to a shorter one
         for ev2 in alphabet(tier):
-            out.append({'prefix': [list(ev), list(ev2)], 'depth': 2 if tier == 'quick' else 4})
+            # measured per prefix: depth 3 full alphabet ~2 600 histories / 45 s, depth 4 reduced alphabet ~6 600 / 125 s,
+            # depth 5 reduced ~25 000 / 550 s (x 245 prefixes)
+            out.append({'prefix': [list(ev), list(ev2)], 'depth': 2 if tier == 'quick' else 3})
             if tier != 'quick':
-                out.append({'prefix': [list(ev), list(ev2)], 'depth': 6, 'reduced': True})
+                out.append({'prefix': [list(ev), list(ev2)], 'depth': 4, 'reduced': True})
     # seeded non-initial states: three levels of nested roots, scanned or not
     e = 'everyone'
     seeds = [
